@@ -370,14 +370,49 @@ theorem serial_words (path iface port baud : Str) (t : Target) (lun netfn : Nat)
   simpa [serial, serialPiece, serialRedirect, Spec.Ipmitool.opt, Spec.Ipmitool.rawArgv,
     Spec.Ipmitool.ox, ← hex02_eq, ← dec_eq] using this
 
-/-- the command of `rmcp_ping` -/
-theorem ping_words (path iface host port : Str) (a : Auth) (cr : Option (Str × Str))
+/-- the privilege level of `rmcp_ping`: spelled out unless it is ipmitool's default -/
+theorem seg_ping_level (level : Nat) (lv : Str) (h : Spec.Ipmitool.levelName level = some lv) :
+    ∃ s, pingLevelPart intended level = .ok s
+      ∧ Seg s (Spec.Ipmitool.levelArgvD (decide (level ≠ 4)) lv) := by
+  unfold Spec.Ipmitool.levelName at h
+  split at h
+  · injection h with h; subst h
+    refine ⟨_, rfl, ?_⟩
+    have := seg_opt 76 (by decide) [85, 83, 69, 82] (by decide)
+    simpa [fmtS, fLevel, Spec.Ipmitool.levelArgvD, Spec.Ipmitool.defaultLevel, Spec.Ipmitool.opt] using this
+  · injection h with h; subst h
+    refine ⟨_, rfl, ?_⟩
+    have := seg_opt 76 (by decide) [79, 80, 69, 82, 65, 84, 79, 82] (by decide)
+    simpa [fmtS, fLevel, Spec.Ipmitool.levelArgvD, Spec.Ipmitool.defaultLevel, Spec.Ipmitool.opt] using this
+  · injection h with h; subst h
+    refine ⟨[], rfl, ?_⟩
+    simpa [Spec.Ipmitool.levelArgvD, Spec.Ipmitool.defaultLevel] using seg_nil
+  · cases h
+
+theorem seg_ping_cipher (c : Cipher) (h : ∀ tr x, c = .val tr x → PlainWord x) :
+    Seg (pingCipherPart intended c) (Spec.Ipmitool.cipherArgv c.toSpec) := by
+  cases c with
+  | none => exact seg_nil
+  | val tr x =>
+    have := seg_opt 67 (by decide) x (h tr x rfl)
+    simpa [pingCipherPart, intended, fmtS, pCipher, fCipher, Cipher.toSpec, Spec.Ipmitool.cipherArgv,
+      Spec.Ipmitool.opt] using this
+
+/-- the command of `rmcp_ping` (intended): the shell hands ipmitool the specified vector, `-L` left
+out exactly for the default level -/
+theorem ping_words (path iface host port : Str) (level : Nat) (c : Cipher) (a : Auth)
+    (cr : Option (Str × Str)) (argv : List Str)
     (hcr : a.toSpec = some cr) (hser : iface ≠ pingRefused)
+    (hargv : Spec.Ipmitool.pingArgv (decide (level ≠ 4)) path iface host port level c.toSpec cr = some argv)
     (hpath : PlainWord path) (hres : reserved.contains path = false) (hiface : PlainWord iface)
     (hhost : PlainWord host) (hport : PlainWord port)
+    (hcipher : ∀ tr x, c = .val tr x → PlainWord x)
     (hcred : ∀ u p, a = .password u p → NoNul u ∧ NoNul p) :
-    ∃ cmd, buildPing intended path iface host port a = .ok cmd
-      ∧ words cmd = .ok (Spec.Ipmitool.pingArgv path iface host port cr) [] := by
+    ∃ cmd, buildPing intended path iface host port level c a = .ok cmd ∧ words cmd = .ok argv [] := by
+  simp only [Spec.Ipmitool.pingArgv, Option.bind_eq_bind, Option.bind_eq_some_iff, Option.pure_def,
+    Option.some.injEq] at hargv
+  obtain ⟨lv, hlv, rfl⟩ := hargv
+  obtain ⟨sl, hl1, hl2⟩ := seg_ping_level level lv hlv
   have hauth : Seg (pingAuthPart intended a) (Spec.Ipmitool.pingCredArgv cr) := by
     cases a with
     | none =>
@@ -397,9 +432,10 @@ theorem ping_words (path iface host port : Str) (a : Auth) (cr : Option (Str × 
     (by decide)
   have hseg := seg_append (seg_opt 73 (by decide) iface hiface)
     (seg_append (seg_opt 72 (by decide) host hhost)
-    (seg_append (seg_opt 112 (by decide) port hport) (seg_append hauth htail)))
-  refine ⟨_, by simp [buildPing, hser]; rfl, ?_⟩
+    (seg_append (seg_opt 112 (by decide) port hport)
+    (seg_append hl2 (seg_append (seg_ping_cipher c hcipher) (seg_append hauth htail)))))
+  refine ⟨_, by simp [buildPing, hser, hl1]; rfl, ?_⟩
   have := words_of_seg path hpath hres _ _ hseg
-  simpa [fmtS, pIface, pHost, pPort, pTail, Spec.Ipmitool.pingArgv, Spec.Ipmitool.opt] using this
+  simpa [fmtS, pIface, pHost, pPort, pTail, Spec.Ipmitool.opt] using this
 
 end PyIpmi.Model.Ipmitool
